@@ -1,0 +1,21 @@
+//go:build verif
+
+// Contracts for govc (the /verif contract verifier). Comment-only: with the build tag off this file is not
+// compiled, with it on it adds no code.
+package stream
+
+// C22 kernel: sendPendingLessOrEqualWatermark(W). What stays pending afterwards are only records of the old pending
+// list with an event time after W (nothing is fabricated, nothing at or below W is kept); every record produced is a
+// record of the old pending list with an event time at or below W.
+//@ func (*InternallyConsistentOutputStreamWrapper).Run$lit1
+//@   loop 1 invariant count: 0 <= $k && $k <= len(pending) && 0 <= afterWatermarkCount && afterWatermarkCount <= $k
+//@   loop 2 invariant kept: 0 <= $k && $k <= len(pending) && len(crossedOut) == len(pending) && forall(j, 0, len(newPending), newPending[j].EventTime.ns > watermark.ns && exists(q, 0, len(pending), sameRec(newPending[j], pending[q])))
+//@   loop 2 invariant marked: forall(q, 0, $k, pending[q].EventTime.ns > watermark.ns ==> crossedOut[q])
+//@   loop 2 invariant frame: forall(q, 0, len(pending), sameRec(pending[q], old(pending[q]))) && len(pending) == old(len(pending))
+//@   loop 3 invariant marked: len(crossedOut) == len(pending) && forall(q, 0, len(pending), pending[q].EventTime.ns > watermark.ns ==> crossedOut[q])
+//@   loop 3 invariant produced: len(OUT) >= old(len(OUT)) && forall(j, old(len(OUT)), len(OUT), exists(q, 0, len(pending), sameRec(OUT[j], pending[q]) && pending[q].EventTime.ns <= watermark.ns))
+//@   loop 3 invariant frame: forall(q, 0, len(pending), sameRec(pending[q], old(pending[q]))) && len(pending) == old(len(pending)) && forall(j, 0, len(newPending), newPending[j].EventTime.ns > watermark.ns && exists(q, 0, len(pending), sameRec(newPending[j], pending[q])))
+//@   loop 4 invariant inner: len(crossedOut) == len(pending) && i + 1 <= j && forall(q, 0, len(pending), pending[q].EventTime.ns > watermark.ns ==> crossedOut[q]) && 0 <= i && i < len(pending)
+//@   ensures kept: result == nil ==> forall(j, 0, len(pending), pending[j].EventTime.ns > watermark.ns && exists(q, 0, old(len(pending)), sameRec(pending[j], old(pending[q]))))
+//@   ensures produced: forall(j, old(len(OUT)), len(OUT), exists(q, 0, old(len(pending)), sameRec(OUT[j], old(pending[q])) && old(pending[q]).EventTime.ns <= watermark.ns))
+//@   ensures nometa: len(OUTM) == old(len(OUTM))
